@@ -151,6 +151,9 @@ class Ctx:
                 raise Inconclusive(f'{res[0]}: {res[1]}')
             sub.merge(res)
         self.total.merge(sub)
+        if os.environ.get('VERIF_PROGRESS'):
+            sys.stderr.write(f'  .. {name or fn.__name__}: {len(shards)} shards, {sub.evaluations} evaluations, {time.time() - t0:.0f} s\n')
+            sys.stderr.flush()
         if name:
             self.subchecks[name] = dict(
                 evaluations=sub.evaluations, distinct_nontrivial=sub.nontrivial, states=sub.states,
